@@ -97,6 +97,30 @@ META.update({
     },
 })
 
+META.update({
+    "C04": {
+        "text": "Proof: for EVERY decoded message and key, the transliterated Check (sizeReduced loop, uint32 arithmetic, "
+                "checked slice, temporary length rewrite) never panics, leaves raw/length/attributes unchanged, and "
+                "succeeds iff the first MESSAGE-INTEGRITY attribute is 20 bytes and equals mac(key, bytes before it "
+                "with the header length rewritten to end at it) - independent of what follows; signing a canonical "
+                "message and checking it after the receiver's decode succeeds (sign_then_check). MAC is a parameter "
+                "(20-byte output); the driver uses an independent Lean HMAC-SHA1; MD5 long-term keys compared too.",
+        "note": PROOF_NOTE + "HMAC/MD5 collision resistance is not provable; Spec.hmacSHA1/md5 are tied to Go's "
+                "crypto packages by the correspondence and RFC vectors.",
+        "technique": "Lean 4 theorems parametric in the MAC + differential correspondence with independent signer",
+    },
+    "C05": {
+        "text": "Proof: the setter's value is CRC-32(all preceding bytes with the final header length) xor 0x5354554e; "
+                "the checker accepts iff the first FINGERPRINT has a 4-byte value equal to that CRC over everything "
+                "before the last 8 raw bytes; add-then-check succeeds at the receiver. CRC-32 is a bit-serial Lean "
+                "spec tied to hash/crc32 by the correspondence. The single-bit/burst detection sentence is decided by "
+                "the implementation-side predicate over exhaustive single-bit flips and random <=32-bit bursts "
+                "(theorem in progress, see DESIGN).",
+        "note": PROOF_NOTE,
+        "technique": "Lean 4 theorems over a bit-serial CRC-32 spec + exhaustive bit-flip correspondence",
+    },
+})
+
 NOT_APPLICABLE = {p: "check not built yet in this round (see DESIGN.md §4 for the plan)" for p in
-                  ["C04", "C05", "C10", "C11", "C12", "C14", "C15", "C16", "C17",
+                  ["C10", "C11", "C12", "C14", "C15", "C16", "C17",
                    "C18", "C20"]}
